@@ -316,4 +316,84 @@ theorem colLoop_spec (d : RandDims) (recurrent : Bool) (nodes : List Node) (cm :
               have a2 : count + (i + 1) * d.total + j = c1 + i * d.total + j := by rw [hsm, hc1]; omega
               rw [a1, a2] at this; exact this
 
+/-! ### the whole constructor -/
+
+theorem drawMatrix_length (linkProb : W) (k : Nat) (rs rs' : List Nat) (cm : List Bool)
+    (h : drawMatrix linkProb k rs = .ok (cm, rs')) : cm.length = k := by
+  induction k generalizing rs rs' cm with
+  | zero => simp only [drawMatrix, Except.ok.injEq, Prod.mk.injEq] at h; obtain ⟨rfl, _⟩ := h; rfl
+  | succ k ih =>
+    unfold drawMatrix at h
+    split at h
+    · cases h
+    · split at h
+      · cases h
+      · rename_i cm1 rs2 hrest
+        simp only [Except.ok.injEq, Prod.mk.injEq] at h
+        obtain ⟨rfl, _⟩ := h
+        simp [ih _ _ _ hrest]
+
+/-- everything the loops establish about a genome `newGenomeRand` returns -/
+structure Facts (newId : Int) (nIn nOut n mH : Nat) (recurrent : Bool) (g : Genome W) : Prop where
+  id : g.id = newId
+  traits : g.traits = [{ id := 1, params := List.replicate numTraitParams zero }]
+  modules : g.modules = []
+  nodesFact : ∀ x ∈ g.nodes, NodeFact nIn n (nIn + mH + 1) nOut x
+  nodesSorted : n ≤ mH → NodesSorted g.nodes
+  hasOutput : 1 ≤ nOut → HasOutput g
+  genesSorted : GenesSorted g.genes
+  cells : ∀ x ∈ g.genes, ∃ i j, i < nIn + nOut + mH ∧ j < nIn + nOut + mH ∧
+    CellFact (randDims nIn nOut n mH) recurrent g.nodes (1 + i) (1 + j) (i * (nIn + nOut + mH) + j) x
+
+theorem firstOutput_eq (nIn nOut n mH : Nat) : (randDims nIn nOut n mH).firstOutput = nIn + mH + 1 := by
+  simp only [randDims]; omega
+
+theorem newGenomeRand_facts (newId : Int) (nIn nOut n mH : Nat) (recurrent : Bool) (linkProb : W) (o : MutOpts W)
+    (rs rs' : List Nat) (g : Genome W) (h : newGenomeRand newId nIn nOut n mH recurrent linkProb o rs = .ok (g, rs')) :
+    Facts newId nIn nOut n mH recurrent g ∧
+    ∃ cm rs1, drawMatrix linkProb ((nIn + nOut + mH) * (nIn + nOut + mH)) rs = .ok (cm, rs1) ∧
+      (g.genes = [] ↔ ∀ i j, i < nIn + nOut + mH → j < nIn + nOut + mH →
+        ¬ CreatesAt (randDims nIn nOut n mH) recurrent cm (1 + i) (1 + j) (i * (nIn + nOut + mH) + j)) := by
+  unfold newGenomeRand at h
+  simp only at h
+  split at h
+  · cases h
+  · rename_i cm rs1 hcm
+    split at h
+    · cases h
+    · rename_i hid rs2 hhid
+      split at h
+      · cases h
+      · rename_i genes c rs3 hcol
+        simp only [Except.ok.injEq, Prod.mk.injEq] at h
+        obtain ⟨rfl, _⟩ := h
+        rw [firstOutput_eq] at hcol
+        obtain ⟨hs, hl, hm⟩ := hiddenNodes_spec o n (nIn + 1) rs1 rs2 hid hhid
+        obtain ⟨_, f, s, e⟩ := colLoop_spec _ recurrent _ cm _ 1 0 rs2 rs3 genes c hcol
+        have htot : (randDims nIn nOut n mH).total = nIn + nOut + mH := rfl
+        rw [htot] at f e
+        refine ⟨{ id := rfl, traits := rfl, modules := rfl,
+                  nodesFact := by simp only [firstOutput_eq]; exact nodes_fact nIn n _ nOut hid hm,
+                  nodesSorted := fun hn => by simp only [firstOutput_eq]; exact nodes_sorted nIn n _ nOut hid hs (by omega) hm,
+                  hasOutput := fun ho => by
+                    obtain ⟨x, hx, hk⟩ := outputNodes_ne_nil (randDims nIn nOut n mH).firstOutput nOut ho
+                    exact ⟨x, List.mem_append_right _ hx, hk⟩,
+                  genesSorted := s,
+                  cells := fun x hx => by
+                    obtain ⟨i, j, hi, hj, hf⟩ := f x hx
+                    have a : 0 + i * (nIn + nOut + mH) + j = i * (nIn + nOut + mH) + j := by omega
+                    rw [a] at hf
+                    simp only [firstOutput_eq]
+                    exact ⟨i, j, hi, hj, hf⟩ }, cm, rs1, hcm, ?_⟩
+        rw [e]
+        constructor
+        · intro hall i j hi hj
+          have := hall i j hi hj
+          have a : 0 + i * (nIn + nOut + mH) + j = i * (nIn + nOut + mH) + j := by omega
+          rw [a] at this; exact this
+        · intro hall i j hi hj
+          have := hall i j hi hj
+          have a : 0 + i * (nIn + nOut + mH) + j = i * (nIn + nOut + mH) + j := by omega
+          rw [a]; exact this
+
 end GoNeat.GenRand
